@@ -35,6 +35,9 @@ def strip_lang_subdomains_from_hostname(hostname):
 def fingerprint_hostname(hostname, strip_suffix=False):
     hostname = normalize_hostname(hostname)
 
+    # NOTE: same order as fingerprint_url: language subdomains first, then suffix
+    hostname = strip_lang_subdomains_from_hostname(hostname)
+
     if strip_suffix:
         # TODO: this is not performant because the code path reparses again
         r = split_suffix(hostname)
@@ -42,7 +45,7 @@ def fingerprint_hostname(hostname, strip_suffix=False):
         if r is not None:
             hostname, _ = r
 
-    return strip_lang_subdomains_from_hostname(hostname)
+    return hostname
 
 
 def get_fingerprinted_hostname(url, infer_redirection=True, strip_suffix=False):
